@@ -93,6 +93,10 @@ type Case struct {
 	// EscFirst: a lone ESC keypress immediately in front of the paste: the
 	// bracket swallows the pending Alt prefix, the pasted text stays as it is
 	EscFirst bool `json:"esc_before_paste,omitempty"`
+	// TailOut: on an entry where the focus-out report is a proper prefix of a key sequence (rxvt:
+	// ESC [ O a), the input ends with that report: nothing follows, so once the escape timeout has
+	// passed it is a focus-out event and nothing else
+	TailOut bool `json:"focus_out_at_end,omitempty"`
 }
 
 func (c Case) build() ([]byte, []inref.Ev, [][2]int, error) {
@@ -127,6 +131,10 @@ func (c Case) build() ([]byte, []inref.Ev, [][2]int, error) {
 	if c.Paste {
 		data = append(data, "\x1b[201~"...)
 		want = append(want, inref.Ev{Kind: "paste", Start: false})
+	}
+	if c.TailOut {
+		data = append(data, "\x1b[O"...)
+		want = append(want, inref.Ev{Kind: "focus", Focus: false})
 	}
 	return data, want, spans, nil
 }
@@ -235,6 +243,9 @@ func genCase(t *rapid.T) Case {
 	}
 	c.Paste = rapid.IntRange(0, 2).Draw(t, "paste") == 0
 	c.EscFirst = c.Paste && ei.paste && !ei.escEsc && rapid.IntRange(0, 3).Draw(t, "escfirst") == 0
+	if ei.noFocusOut && (!c.Paste || ei.paste) {
+		c.TailOut = rapid.Bool().Draw(t, "tailout")
+	}
 	data, _, _, _ := c.build()
 	if len(data) > 1 {
 		if rapid.IntRange(0, 4).Draw(t, "allcuts") == 0 {
